@@ -252,7 +252,7 @@ def section(chk, repo):
     for r in reads:
         # reachable from the entry without passing the lock's success edge?
         lids = {n.id for n in locks}
-        reach = cfg.reach_edges(cfg.entry, lambda a, b, lab: not (
+        reach = reach_flagged(cfg, en, cfg.entry, lambda a, b, lab: not (
             a.id in lids and lab != "exc"))
         if r in reach:
             ok = False
